@@ -96,6 +96,72 @@ def text_family(ctx, mode, big):
     return v
 
 
+def hayson_field_docs():
+    """the field family for the Hayson scalar objects (the JSON mirror of MC_Texts mode fld): date / time / dateTime / coord /
+    number objects whose members take edge and out-of-range spellings one at a time - calendar days a month does not have,
+    hour 24, second 60, timestamps without an offset that fall into the skipped or the repeated hour of their zone, offsets that
+    disagree with the zone, unknown and empty zones, members of the wrong JSON type"""
+    docs = []
+    dates = ["2021-02-28", "2021-02-29", "2021-02-30", "2021-04-31", "2021-13-01", "2021-00-10", "2021-01-00", "2021-01-32", "0000-01-01",
+             "9999-12-31", "10000-01-01", "+12021-01-01", "2021-2-3", "21-01-01", "", "2021-01-01T00:00:00Z"]
+    times = ["00:00:00", "23:59:59", "23:59:60", "23:59:60.5", "24:00:00", "12:60:00", "12:00", "12", "", "12:00:00.123456789", "12:00:00.1234567891",
+             "12:00:00.", "1:2:3", "-1:00:00", "12:00:00Z"]
+    stamps = ["2021-03-14T02:30:00", "2021-11-07T01:30:00", "2021-03-28T01:15:00.5", "2021-06-15T12:00:00", "2021-03-14T02:30:00-05:00",
+              "2021-03-14T02:30:00-04:00", "2021-11-07T01:30:00-04:00", "2021-11-07T01:30:00-05:00", "2021-06-15T12:00:00Z", "2021-06-15T12:00:00+00:00",
+              "2021-06-15T12:00:00+05:30", "2021-06-15T12:00:00+14:00", "2021-06-15T12:00:00+24:00", "2021-06-15t12:00:00z", "2021-06-15 12:00:00Z",
+              "2021-06-15T24:00:00Z", "2021-06-15T23:59:60Z", "2021-02-30T00:00:00Z", "2021-06-15T12:00:00.123456789123Z", "2021-06-15T12:00Z", "2021-06-15", ""]
+    zones = [None, "New_York", "London", "UTC", "Kolkata", "Foo", "", "GMT+5", "Etc/GMT+5", "America/New_York", 5]
+    for d in dates:
+        docs.append({"_kind": "date", "val": d})
+    for t in times:
+        docs.append({"_kind": "time", "val": t})
+    for st in stamps:
+        for z in zones:
+            docs.append({"_kind": "dateTime", "val": st} if z is None else {"_kind": "dateTime", "val": st, "tz": z})
+    for bad in (None, 5, True, [], {}, ["2021-01-01"]):
+        docs += [{"_kind": "date", "val": bad}, {"_kind": "time", "val": bad}, {"_kind": "dateTime", "val": bad, "tz": "UTC"},
+                 {"_kind": "coord", "lat": bad, "lng": 1}, {"_kind": "number", "val": bad}, {"_kind": "number", "val": 1, "unit": bad},
+                 {"_kind": "ref", "val": bad}, {"_kind": "symbol", "val": bad}, {"_kind": "uri", "val": bad}, {"_kind": "xstr", "type": bad, "val": "x"},
+                 {"_kind": "xstr", "type": "Bin", "val": bad}, {"_kind": "grid", "cols": bad, "rows": []}, {"_kind": "grid", "cols": [{"name": "a"}], "rows": bad},
+                 {"_kind": "grid", "meta": bad, "cols": [{"name": "a"}], "rows": []}, {"_kind": "grid", "cols": [{"name": bad}], "rows": []},
+                 {"_kind": "grid", "cols": [{"name": "a", "meta": bad}], "rows": []}, {"_kind": "grid", "cols": [bad], "rows": [bad]}, {"_kind": bad}]
+    for la, ln in ((90, 180), (-90, -180), (90.1, 0), (0, 180.5), (-91, 0), ("1", "2"), (1e400, 0), (None, None)):
+        docs.append({"_kind": "coord", "lat": la, "lng": ln})
+    out = []
+    for d in docs:
+        out.append({"op": "dec.json.tree", "tree": _jt(d), "src": "fld"})
+        out.append({"op": "dec.json.tree", "tree": _jt([d, {"a": d}]), "src": "fld"})
+        out.append({"op": "dec.json.tree", "tree": _jt({"_kind": "grid", "cols": [{"name": "a"}], "rows": [{"a": d}]}), "src": "fld"})
+    return out
+
+
+def hayson_foreign_values():
+    """what Hayson can say and Zinc cannot: xstr types that are no capitalised name, ref / symbol ids outside the id alphabet,
+    tag / column / meta names that are no Zinc tag names, units outside the database, strings with NUL / astral / line separator
+    characters. A decoder may accept them; whatever it accepts must re-encode stably (C11), must not make the other encoder or
+    Display panic (C10) and must not take the process down through the C API (C18)."""
+    names = ["a b", "A", "", "\u00e9", "a\u0000b", "a-b", "1a", "a.b", "$x", "a\"b"]
+    ids = ["a b", "", "\u00e9", "a\u0000b", "a\"b", "a\nb"]
+    docs = [{"_kind": "xstr", "type": t, "val": "text/plain"} for t in ("bin", "color", "\u00e9clair", "", "b\u0000in", "1x", "a b", "bIN")]
+    for i in ids:
+        docs += [{"_kind": "ref", "val": i}, {"_kind": "ref", "val": "r", "dis": i}, {"_kind": "symbol", "val": i}, {"_kind": "uri", "val": i},
+                 {"_kind": "xstr", "type": "Bin", "val": i}]
+    for n in names:
+        docs += [{n: 1}, {"_kind": "grid", "cols": [{"name": n}], "rows": [{n: "x"}]},
+                 {"_kind": "grid", "meta": {n: "m"}, "cols": [{"name": "a", "meta": {n: 1}}], "rows": []}]
+    docs += [{"_kind": "number", "val": 1, "unit": u} for u in ("zorkmid", "", "a b", "\u0000", "\u00b0")]
+    docs += ["a\u0000b", "\U0001F600", "\u2028", ""]
+    return docs
+
+
+def hayson_foreign_docs():
+    out = []
+    for d in hayson_foreign_values():
+        out.append({"op": "dec.json.tree", "tree": _jt(d), "src": "foreign"})
+        out.append({"op": "dec.json.tree", "tree": _jt([d, {"k": d}]), "src": "foreign"})
+    return out
+
+
 def long_token_vectors(quick):
     """the long-token family for the decoders (the mirror of C10's enc.long): every slot of the Zinc / Hayson grammars where a
     token of free length can stand, filled with k ASCII characters followed by n multi-byte characters (2-, 3- and 4-byte), and
@@ -296,7 +362,7 @@ def c03(ctx):
         sched_docs = sched_docs[::6]
     sched = [{"op": "dec.sched.all", "text": t} for t in sched_docs]
     sched = sched + stream_vectors(ctx, 4 if q else 5, 1)
-    ev1 = hs_run(ctx, vt + vj + muts + jm + bombs + sched + long_token_vectors(q), "gen")
+    ev1 = hs_run(ctx, vt + vj + muts + jm + bombs + sched + long_token_vectors(q) + hayson_field_docs() + hayson_foreign_docs(), "gen")
     ctx.bads += tlc_trace(ctx, "Trace_Total", ev1, shards=14)
     note_events(ctx, ev1, key=lambda e: [e.get("text"), e.get("schedule"), e.get("fail_at"), e.get("open"), e.get("n")])
     # 5. byte-level fuzz and corpus splices
@@ -335,7 +401,7 @@ def c10(ctx):
     ev2 = hs_rec(ctx, "fuzz", n)
     ctx.bads += tlc_trace(ctx, "Trace_Total", ev2, shards=14)
     note_events(ctx, ev2, key=lambda e: e.get("text"), trivial=lambda e: e.get("reenc", {}).get("display") == "skipped")
-    ev3 = hs_run(ctx, zinc_mutant_vectors(ctx, q, [0, 9]), "mut")
+    ev3 = hs_run(ctx, zinc_mutant_vectors(ctx, q, [0, 9]) + hayson_foreign_docs() + hayson_field_docs(), "mut")
     ctx.bads += tlc_trace(ctx, "Trace_Total", ev3, shards=14)
     note_events(ctx, ev3, key=lambda e: e.get("text"), trivial=lambda e: e.get("reenc", {}).get("display") == "skipped")
     return finish(ctx,
@@ -385,7 +451,7 @@ def c11(ctx):
     sched = [{"op": "dec.sched.all", "text": t} for t in sched_docs]
     big = [{"op": "dec.sched.big", "rows": 300, "seed": ctx.seed + i} for i in range(1 if q else 6)]
     muts = zinc_mutant_vectors(ctx, q, [0, 9])
-    ev1 = hs_run(ctx, v1 + v2 + files + sched + big + muts + stream + hayson_grid_shapes(), "gen")
+    ev1 = hs_run(ctx, v1 + v2 + files + sched + big + muts + stream + hayson_grid_shapes() + hayson_foreign_docs(), "gen")
     ctx.bads += tlc_trace(ctx, "Trace_Total", ev1, shards=14, per_shard_min=50)
     note_events(ctx, ev1, key=lambda e: [e.get("text"), e.get("tree"), e.get("schedule"), e.get("fail_at"), e.get("path"), e.get("row")])
     n = 20000 if q else 200000
@@ -507,6 +573,9 @@ def c09(ctx):
         rec = sorted(rec, key=lambda t: t[0])
         return {"op": "filter.rel", "text": _cps("containedBy? @r1"), "rec": rec, "db": keyed}
     rel = [_rel(x, w) for x in (vw[::2] if q else vw) for w in (True, False)]
+    # chains of refs without a cycle, far longer than any database above (a walk by recursion dies of stack exhaustion)
+    rel += [{"op": "filter.chain", "kind": k, "n": n, "hit": h} for k in ("weq", "rel") for h in (True, False)
+            for n in ((1, 2, 1000, 100000) if q else (1, 2, 3, 1000, 30000, 100000, 1000000))]
     ev1 = hs_run(ctx, vp + muts + bombs + vw + lit + rel, "gen")
     # bombs are dec.bomb events (Trace_Total), the rest filter events (Trace_Filter): split
     evs = read_ndjson(ev1)
@@ -809,6 +878,13 @@ def capi_scripts(q):
         tgt = a[0].get("h2", a[0]["h"])
         hist.append({"op": "capi.history", "calls": base + [dict(c) for c in a] +
                      [{"fn": "haystack_value_to_zinc_string", "h": tgt}, {"fn": "haystack_value_to_json_string", "h": a[0]["h"]}]})
+    # (f) values only Hayson can express, decoded through the C API and handed to both string conversions and the getters
+    for d in hayson_foreign_values():
+        hist.append({"op": "capi.history", "calls": [
+            {"fn": "haystack_value_from_json_string", "s": {"some": True, "s": []}, "tree": _jt(d), "newh": 1},
+            {"fn": "haystack_value_to_zinc_string", "h": 1}, {"fn": "haystack_value_to_json_string", "h": 1},
+            {"fn": "haystack_value_make_list", "newh": 2}, {"fn": "haystack_value_push_list_entry", "h": 2, "h2": 1},
+            {"fn": "haystack_value_to_zinc_string", "h": 2}, {"fn": "haystack_value_to_json_string", "h": 2}]})
     # (d) kind sweep: one value of every kind (Null included) put into a dict and a list, then every entry read back,
     #     the keys listed, both codecs run, entries overwritten by another kind and removed
     B = "0x%016x" % 0x4045000000000000      # 42.0
